@@ -85,6 +85,11 @@ func TestWorker(t *testing.T) {
 					_ = writeJSON(filepath.Join(dir, fmt.Sprintf("%s-%s-%d-%d-%d.json", v.Prop, p.Name, seed, i, vi)), rf)
 				}
 			}
+			if os.Getenv("VERIF_LOG") == "2" {
+				for _, l := range res.sim.Log {
+					fmt.Println("LOG", l)
+				}
+			}
 			res.sim = nil
 			emit("RUN", res)
 		}
